@@ -48,6 +48,26 @@ mod probe {
         }
     }
 
+    /// replies at once
+    pub struct Quick;
+    impl Message<Quick> for Peer {
+        type Reply = u32;
+        async fn handle(&mut self, _: Quick, _: &ActorRef<Self>) -> u32 {
+            5
+        }
+    }
+    /// spawns a task that ends when released and hands its JoinHandle back (for ask_join)
+    pub struct SpawnTask(pub oneshot::Receiver<()>);
+    impl Message<SpawnTask> for Peer {
+        type Reply = tokio::task::JoinHandle<u32>;
+        async fn handle(&mut self, m: SpawnTask, _: &ActorRef<Self>) -> tokio::task::JoinHandle<u32> {
+            tokio::spawn(async move {
+                let _ = m.0.await;
+                11
+            })
+        }
+    }
+
     pub struct Boss;
     impl Actor for Boss {
         type Args = ();
@@ -99,6 +119,100 @@ mod probe {
         }
     }
 
+    /// two asks of one handler in flight at the same time (join!); the one that began first ends
+    /// first.  The graph keeps one edge per asking actor, so such asks are outside C14's
+    /// "sequential"; C15 still demands that nothing is left behind and nothing false is reported.
+    pub struct RunOverlap(pub ActorRef<Peer>, pub ActorRef<Peer>, pub Work);
+    impl Message<RunOverlap> for Boss {
+        type Reply = u32;
+        async fn handle(&mut self, m: RunOverlap, _: &ActorRef<Self>) -> u32 {
+            let RunOverlap(first, second, work) = m;
+            let (a, b) = tokio::join!(first.ask(Quick), second.ask(work));
+            a.unwrap_or(0) + b.unwrap_or(0)
+        }
+    }
+    /// ask_join: the ask part is answered at once, then the handler waits for the spawned task
+    pub struct RunJoin(pub ActorRef<Peer>, pub SpawnTask);
+    impl Message<RunJoin> for Boss {
+        type Reply = u32;
+        async fn handle(&mut self, m: RunJoin, _: &ActorRef<Self>) -> u32 {
+            m.0.ask_join(m.1).await.unwrap_or(0)
+        }
+    }
+
+    async fn finish(name: &str, run_res: String, edges_mid: usize, back: String,
+                    boss: ActorRef<Boss>, bj: tokio::task::JoinHandle<rsactor::ActorResult<Boss>>,
+                    peers: Vec<(ActorRef<Peer>, tokio::task::JoinHandle<rsactor::ActorResult<Peer>>)>) {
+        let _ = boss.kill();
+        let bres = match bj.await {
+            Ok(_) => "ended",
+            Err(_) => "panic",
+        };
+        let mut pres = "ended";
+        for (p, j) in peers {
+            let _ = p.kill();
+            if j.await.is_err() {
+                pres = "panic";
+            }
+        }
+        let edges_end = rsactor::__verif_wait_for_edges().len();
+        println!(
+            "{name} run={run_res} edges_after_hook={edges_mid} callback={back} boss={bres} peer={pres} edges_end={edges_end} poisoned={}",
+            rsactor::__verif_wait_for_poisoned()
+        );
+    }
+
+    pub async fn scenario_overlap() {
+        let (first, fj) = rsactor::spawn::<Peer>(());
+        let (second, sj) = rsactor::spawn::<Peer>(());
+        let (boss, bj) = rsactor::spawn::<Boss>(());
+        let (tx, rx) = oneshot::channel();
+        let (b2, f2, s2) = (boss.clone(), first.clone(), second.clone());
+        let run = tokio::spawn(async move { b2.ask(RunOverlap(f2, s2, Work(rx))).await });
+        // the quick ask has long finished when the gated one is released
+        tokio::time::sleep(std::time::Duration::from_millis(30)).await;
+        let _ = tx.send(());
+        let run_res = match run.await.unwrap() {
+            Ok(v) => format!("ok{v}"),
+            Err(e) => format!("err:{e}"),
+        };
+        let edges_mid = rsactor::__verif_wait_for_edges().len();
+        // the peer asked first now asks the boss: nothing is in flight, the detector must stay quiet
+        let back = match first.ask(CallBack(boss.clone())).await {
+            Ok(s) => s,
+            Err(rsactor::Error::Receive { .. }) => "PEER-PANICKED".into(),
+            Err(e) => format!("err:{e}"),
+        };
+        finish("overlapping_asks_first_ends_first", run_res, edges_mid, back, boss, bj, vec![(first, fj), (second, sj)]).await;
+    }
+
+    pub async fn scenario_ask_join() {
+        let (peer, pj) = rsactor::spawn::<Peer>(());
+        let (boss, bj) = rsactor::spawn::<Boss>(());
+        let (tx, rx) = oneshot::channel();
+        let (b2, p2) = (boss.clone(), peer.clone());
+        let run = tokio::spawn(async move { b2.ask(RunJoin(p2, SpawnTask(rx))).await });
+        tokio::time::sleep(std::time::Duration::from_millis(30)).await;
+        // the boss is inside ask_join, its ask answered, waiting for the task; the peer is free and
+        // asks the boss: that ask waits for the boss's handler, which waits for the task - no cycle
+        let (p3, b3) = (peer.clone(), boss.clone());
+        let cb = tokio::spawn(async move { p3.ask(CallBack(b3)).await });
+        tokio::time::sleep(std::time::Duration::from_millis(30)).await;
+        let edges_mid = rsactor::__verif_wait_for_edges().len();
+        let _ = tx.send(());
+        let run_res = match run.await.unwrap() {
+            Ok(v) => format!("ok{v}"),
+            Err(rsactor::Error::Receive { .. }) => "recv".into(),
+            Err(e) => format!("err:{e}"),
+        };
+        let back = match cb.await.unwrap() {
+            Ok(s) => s,
+            Err(rsactor::Error::Receive { .. }) => "PEER-PANICKED".into(),
+            Err(e) => format!("err:{e}"),
+        };
+        finish("callback_during_ask_join", run_res, edges_mid, back, boss, bj, vec![(peer, pj)]).await;
+    }
+
     pub async fn scenario(name: &str, how: How, boss_dies: bool) {
         let (peer, pj) = rsactor::spawn::<Peer>(());
         let (boss, bj) = rsactor::spawn::<Boss>(());
@@ -146,5 +260,7 @@ fn main() {
         probe::scenario("panic_while_asking", probe::How::PanicWhileAsking, true).await;
         probe::scenario("select_drops_ask", probe::How::SelectDrops, false).await;
         probe::scenario("timeout_drops_ask", probe::How::Timeout, false).await;
+        probe::scenario_overlap().await;
+        probe::scenario_ask_join().await;
     });
 }
